@@ -240,6 +240,19 @@ func (c *Ctx) goAfterInit(fn string) bool {
 			}
 		case *ast.GoStmt:
 			goAt = i
+		case *ast.ExprStmt:
+			// the go statement in a helper of its own: l.spawn()
+			if call, ok := s.X.(*ast.CallExpr); ok {
+				if f, isF := c.callee(call).(*types.Func); isF && f.Pkg() != nil && f.Pkg().Path() == bclPath {
+					if hd := c.funcDecls[f]; hd != nil && hd.Body != nil {
+						for _, hs := range hd.Body.List {
+							if _, isGo := hs.(*ast.GoStmt); isGo {
+								goAt = i
+							}
+						}
+					}
+				}
+			}
 		}
 	}
 	return litAt >= 0 && goAt > litAt && !assignsAfter
